@@ -1,6 +1,7 @@
 package main
 
 import (
+	"reflect"
 	"bytes"
 	"encoding/json"
 	"errors"
@@ -184,6 +185,43 @@ type c02 struct {
 // value checks one (method, value) through every entry point.
 // Decoy is text that looks like pieces of encoded values of other types.
 const Decoy = `e-07 1e-06 -0 e+21 \u003c \" \\ null true ," : {"k":1} [1,2] % %d 0.0000001 NaN data:application/cbor;base64,`
+
+// pointerField logs &v through Fields (map and slice, on an event and on a context) and expects what v gives.
+func (c *c02) pointerField(f seqx.Field) {
+	c.idx++
+	if c.idx%int64(c.n) != int64(c.shard) {
+		return
+	}
+	pv := reflect.New(reflect.TypeOf(f.Val))
+	pv.Elem().Set(reflect.ValueOf(f.Val))
+	ptr := pv.Interface()
+	want, ok := seqx.ValueExp(f)
+	if !ok {
+		return
+	}
+	for variant, p := range []seqx.Program{
+		{Entry: entryLog, Fields: []seqx.Field{{M: "Fields", Val: map[string]interface{}{"key": ptr}}}, Final: send},
+		{Entry: entryLog, Fields: []seqx.Field{{M: "Fields", Val: []interface{}{"key", ptr}}}, Final: send},
+		{Steps: []seqx.Step{{Op: "With", Fields: []seqx.Field{{M: "Fields", Val: map[string]interface{}{"key": ptr}}}}}, Entry: entryLog, Final: send},
+	} {
+		out := seqx.Run(p)
+		c.r.Transitions++
+		desc := fmt.Sprintf("Fields{\"key\": &%s(%v)} (variant %d)", f.M, f.Val, variant)
+		if out.Panic != "" || len(out.Lines) != 1 {
+			c.r.Violation("", "pointer/run/"+f.M, fmt.Sprintf("%s: panic %q, %d writes", desc, out.Panic, len(out.Lines)), p.String())
+			continue
+		}
+		c.r.Eval("ptr|"+string(out.Lines[0]), true)
+		root, err := jsonstrict.ParseLine(out.Lines[0])
+		if err != nil {
+			c.r.Violation("", "pointer/invalid/"+f.M, fmt.Sprintf("%s: output %q is not valid JSON: %v", desc, out.Lines[0], err), p.String())
+			continue
+		}
+		if err := seqx.MatchFields(root, []seqx.KV{{Key: "key", Exp: want}}); err != nil {
+			c.r.Violation("", "pointer/value/"+f.M, fmt.Sprintf("%s: %v; output %q", desc, err, out.Lines[0]), p.String())
+		}
+	}
+}
 
 func (c *c02) neighbours(f seqx.Field) {
 	c.idx++
@@ -407,6 +445,12 @@ func runC02() {
 			}
 			for _, v := range vals {
 				c.neighbours(seqx.Field{M: m, Key: "key", Val: v})
+			}
+		}
+		// pointer-typed values in Fields (one arm per scalar type in the encoder): *T must render exactly as T does
+		for _, m := range []string{"Str", "Bool", "Int", "Int8", "Int16", "Int32", "Int64", "Uint", "Uint8", "Uint16", "Uint32", "Uint64", "Float32", "Float64", "Time", "Dur"} {
+			for _, v := range seqx.ClassValues(m) {
+				c.pointerField(seqx.Field{M: m, Key: "key", Val: v})
 			}
 		}
 		// containers and marshalers, including their nil / empty forms ("nil as null"), through every entry point
